@@ -6,7 +6,9 @@ package fasthttp
 //         Read), parsed back with Cookie.ParseBytes and compared with the attributes the
 //         specification says a peer must see.
 //   req:  a sequence of RequestHeader.SetCookie calls, the request header is written and
-//         re-read, and the cookies the server side lists are compared with the jar.
+//         re-read into a fresh RequestHeader, into a RequestHeader that has parsed all the
+//         previous requests, and by a real server over one keep-alive connection; the
+//         cookies the server side lists are compared with the jar.
 // Tokens: "^" stands for CR, "$" for LF.
 
 import (
@@ -17,6 +19,8 @@ import (
 	"strings"
 	"testing"
 	"time"
+
+	"github.com/valyala/fasthttp/fasthttputil"
 )
 
 type c06Want struct {
@@ -52,6 +56,7 @@ type c06Vec struct {
 	Ops         [][2]string `json:"ops"`
 	Jar         [][2]string `json:"jar"`
 	Ref         [][2]string `json:"ref"`
+	Oct         [][2]string `json:"oct"` // the cookie-octet cookies of the jar, in order
 }
 
 var c06T1 = time.Date(2031, time.May, 17, 13, 4, 59, 123456789, time.UTC)
@@ -202,7 +207,8 @@ func c06ReqKey(v *c06Vec) string {
 	return sb.String()
 }
 
-func c06Req(v *c06Vec, n int) {
+// c06ReqWire builds the request header through the API and returns its wire image.
+func c06ReqWire(v *c06Vec, n int) []byte {
 	var h RequestHeader
 	h.SetRequestURI("/")
 	h.SetHost("example.com")
@@ -217,37 +223,148 @@ func c06Req(v *c06Vec, n int) {
 			h.SetCookieBytesKV([]byte(k), []byte(val))
 		}
 	}
-	wire := append([]byte(nil), h.Header()...)
+	return append([]byte(nil), h.Header()...)
+}
+
+func c06IsSubseq(a, b [][2]string) bool {
+	i := 0
+	for _, x := range b {
+		if i < len(a) && a[i] == x {
+			i++
+		}
+	}
+	return i == len(a)
+}
+
+// c06Judge compares the cookies a server-side view lists with the vector's jar.
+func c06Judge(v *c06Vec, seen [][2]string, wire []byte, via string) {
+	var jar, oct [][2]string
+	for _, e := range v.Jar {
+		jar = append(jar, [2]string{c06S(e[0]), c06S(e[1])})
+	}
+	for _, e := range v.Oct {
+		oct = append(oct, [2]string{c06S(e[0]), c06S(e[1])})
+	}
+	key := "c06:" + c06ReqKey(v)
+	if via != "fresh header" {
+		key += ":" + via
+	}
+	if len(seen) > len(jar) {
+		vfViol(key, fmt.Sprintf("%s: %d cookie(s) were set, the server sees %d: %q (request %q)", via, len(jar), len(seen), seen, wire),
+			vfRec{"vec": v, "seen": seen, "wire": string(wire), "via": via})
+		return
+	}
+	if !c06IsSubseq(oct, seen) {
+		vfViol(key, fmt.Sprintf("%s: the cookie-octet cookies %q were set, the server sees %q (request %q)", via, oct, seen, wire),
+			vfRec{"vec": v, "seen": seen, "wire": string(wire), "via": via})
+		return
+	}
+	if v.Octets {
+		ok := len(seen) == len(jar)
+		for i := 0; ok && i < len(seen); i++ {
+			ok = seen[i] == jar[i]
+		}
+		if !ok {
+			vfViol(key, fmt.Sprintf("%s: cookie-octet cookies %q are seen by the server as %q", via, jar, seen), vfRec{"vec": v, "seen": seen, "via": via})
+		}
+	}
+}
+
+func c06Cookies(h *RequestHeader) [][2]string {
+	var seen [][2]string
+	for k, val := range h.Cookies() {
+		seen = append(seen, [2]string{string(k), string(val)})
+	}
+	return seen
+}
+
+// c06Req: the request is read back (a) into a fresh RequestHeader and (b) into a header
+// object that has already parsed all the previous requests (what a server does with the
+// requests of a keep-alive connection): the cookies seen must not depend on that.
+func c06Req(v *c06Vec, n int, reused *RequestHeader) []byte {
+	wire := c06ReqWire(v, n)
 	var h2 RequestHeader
 	if err := h2.Read(bufio.NewReader(bytes.NewReader(wire))); err != nil {
 		if v.Octets {
 			vfViol("c06:"+c06ReqKey(v), fmt.Sprintf("request %q is not readable: %v", wire, err), vfRec{"vec": v})
 		}
-		return
+		return nil
 	}
-	var seen [][2]string
-	for k, val := range h2.Cookies() {
-		seen = append(seen, [2]string{string(k), string(val)})
+	c06Judge(v, c06Cookies(&h2), wire, "fresh header")
+	if err := reused.Read(bufio.NewReader(bytes.NewReader(wire))); err != nil {
+		vfViol("c06:"+c06ReqKey(v)+":reused header", fmt.Sprintf("request %q is readable into a fresh header but not into a reused one: %v", wire, err), vfRec{"vec": v})
+		return wire
 	}
-	if len(seen) > len(v.Jar) {
-		vfViol("c06:"+c06ReqKey(v), fmt.Sprintf("%d cookie(s) were set, the server sees %d: %q (Cookie header in %q)", len(v.Jar), len(seen), seen, wire),
-			vfRec{"vec": v, "seen": seen, "wire": string(wire)})
-		return
+	c06Judge(v, c06Cookies(reused), wire, "reused header")
+	return wire
+}
+
+type c06LiveReq struct {
+	v    c06Vec
+	wire []byte
+}
+
+// c06Live sends the requests over ONE keep-alive connection to a real server whose
+// handler lists the cookies it sees.
+func c06Live(t *testing.T, reqs []c06LiveReq) int {
+	if len(reqs) == 0 {
+		return 0
 	}
-	if v.Octets {
-		ok := len(seen) == len(v.Jar)
-		for i := 0; ok && i < len(seen); i++ {
-			ok = seen[i][0] == c06S(v.Jar[i][0]) && seen[i][1] == c06S(v.Jar[i][1])
+	ln := fasthttputil.NewInmemoryListener()
+	s := &Server{
+		Handler: func(ctx *RequestCtx) {
+			b, _ := json.Marshal(c06Cookies(&ctx.Request.Header))
+			ctx.SetBody(b)
+		},
+	}
+	done := make(chan struct{})
+	go func() { s.Serve(ln); close(done) }() //nolint:errcheck
+	defer func() { ln.Close(); <-done }()
+	c, err := ln.Dial()
+	if err != nil {
+		t.Fatalf("dial: %v", err)
+	}
+	defer c.Close()
+	br := bufio.NewReader(c)
+	n := 0
+	for i := range reqs {
+		r := &reqs[i]
+		if _, err := c.Write(r.wire); err != nil {
+			vfInfra("live write: " + err.Error())
+			return n
 		}
-		if !ok {
-			vfViol("c06:"+c06ReqKey(v), fmt.Sprintf("cookie-octet cookies %q are seen by the server as %q", v.Jar, seen), vfRec{"vec": v, "seen": seen})
+		var resp Response
+		if err := resp.Read(br); err != nil {
+			vfInfra("live server did not answer: " + err.Error())
+			return n
 		}
+		if resp.StatusCode() != StatusOK {
+			// the server refused the request as a whole: nothing is seen
+			if r.v.Octets {
+				vfViol("c06:"+c06ReqKey(&r.v)+":keep-alive server", fmt.Sprintf("server answers %d to %q", resp.StatusCode(), r.wire), vfRec{"vec": r.v})
+			}
+			if resp.ConnectionClose() {
+				return n
+			}
+			continue
+		}
+		var seen [][2]string
+		if err := json.Unmarshal(resp.Body(), &seen); err != nil {
+			vfInfra("live body: " + err.Error())
+			return n
+		}
+		c06Judge(&r.v, seen, r.wire, "keep-alive server")
+		n++
 	}
+	return n
 }
 
 func TestVerifC06Cookie(t *testing.T) {
 	vfOpen(t)
-	evals, nontriv, nresp, nreq, refAgree := 0, 0, 0, 0, 0
+	evals, nontriv, nresp, nreq := 0, 0, 0, 0
+	var reused RequestHeader
+	var live []c06LiveReq
+	liveEvery := vfEnvInt("VERIF_C06_LIVE_EVERY", 1)
 	vfEachLine(t, "", func(line []byte) {
 		var v c06Vec
 		if err := json.Unmarshal(line, &v); err != nil {
@@ -266,7 +383,9 @@ func TestVerifC06Cookie(t *testing.T) {
 			if !v.Octets || len(v.Ops) > 1 {
 				nontriv++
 			}
-			c06Req(&v, evals)
+			if wire := c06Req(&v, evals, &reused); wire != nil && nreq%liveEvery == 0 {
+				live = append(live, c06LiveReq{v: v, wire: wire})
+			}
 		default:
 			t.Fatalf("unknown vector type %q", v.T)
 		}
@@ -274,7 +393,7 @@ func TestVerifC06Cookie(t *testing.T) {
 			vfSample(vfRec{"vector": v})
 		}
 	})
-	_ = refAgree
-	vfStat(evals, nontriv, vfRec{"response_cookies": nresp, "request_sequences": nreq})
+	nlive := c06Live(t, live)
+	vfStat(evals, nontriv, vfRec{"response_cookies": nresp, "request_sequences": nreq, "keepalive_server_requests": nlive})
 	vfDone()
 }
